@@ -46,6 +46,9 @@ type Ctx struct {
 }
 
 func (c *Ctx) add(rule, fn, construct, pos, verdict, detail string, path []string) *Ob {
+	if c.P != nil {
+		fn = c.P.ownerKey(fn)
+	}
 	o := &Ob{Rule: rule, Function: fn, Construct: construct, Pos: pos, Verdict: verdict, Detail: detail, Path: path, Config: c.Config}
 	c.Obs = append(c.Obs, o)
 	return o
